@@ -1117,6 +1117,9 @@ class PolyhedralTermList(TermList):  # noqa: WPS338
 
             res = linprog(c=objective, A_ub=a_opt, b_ub=b_opt, bounds=(None, None))  # ,options={'tol':0.000001})
             b_temp -= 1
+            if res["status"] not in {0, 2}:
+                # the solver gave up (iteration limit, numerical difficulties): there is no optimum to compare
+                raise ValueError("Cannot decide whether the constraint is implied")
             if res["status"] == 2:
                 is_refinement = False
                 break
@@ -1322,8 +1325,8 @@ class PolyhedralTermList(TermList):  # noqa: WPS338
         logging.debug(new_context_cons)
         logging.debug(objective)
         res = linprog(c=objective, A_ub=new_context_mat, b_ub=new_context_cons, bounds=(None, None))
-        if res["status"] in {2, 3}:
-            # unbounded
+        if res["status"] != 0:
+            # unbounded, infeasible, or the solver gave up: there is no optimum to use
             # return term.copy()
             raise ValueError("Tactic 2 did not succeed")
         replacement = polarity * res["fun"]
